@@ -201,3 +201,18 @@ Example C03_monitor_rejects :
   monitor_C03 ex_R [ex_q2] bad3 = false /\ monitor_C03 ex_R [ex_q1] bad4 = false /\
   mon24_req bad4 ex_q1 = false.
 Proof. vm_compute. repeat split. Qed.
+
+(* Round 4: the do-not-send-cids clause of the wire monitor.  Request 3 carries a dedup key AND an ignore list
+   naming block 1: the model (key first, then the list recorded in the key's tracker) never carries block 1, and
+   the monitors accept its execution; a history that does carry it — what recording the list in the default
+   tracker before moving to the key's tracker produces — is rejected by mon24_req (and accepted if the list is
+   dropped from the request, so it is this clause that rejects it). *)
+Example C24_monitor_rejects_ignored_block :
+  let q3 := {| rq_id := 3; rq_plan := ex_plan; rq_dedup := Some 5; rq_ignore := Some [1]; rq_skip := None |} in
+  let q3' := {| rq_id := 3; rq_plan := ex_plan; rq_dedup := Some 5; rq_ignore := None; rq_skip := None |} in
+  let tl := sim plt_new (map (rst_init true ex_R) [q3]) [SStart 3; SStep 3; SStep 3; SStep 3; SStep 3] in
+  let bad := [(SStart 3, []); (SStep 3, [rec_msg 3 0 true true 1]); (SStep 3, [rec_msg 3 1 true true 2])] in
+  monitor_C03 ex_R [q3] tl = true /\ mon24_req tl q3 = true /\
+  existsb (fun m => existsb (N.eqb 1) (wm_blocks m)) (concat (map snd tl)) = false /\
+  mon24_req bad q3 = false /\ mon24_req bad q3' = true.
+Proof. vm_compute. repeat split. Qed.
